@@ -2,9 +2,28 @@
 //! vcheck — bounded-exhaustive checks of barrucadu/resolved (see /verif/DESIGN.md).
 //!
 //! usage: vcheck <ID> [--tier quick|thorough] [--replay <file>]
+//!        vcheck worker <ID> <args...>      (child-process mode used by some checks)
 //! exit 0: property held on everything explored; 1: violation; 2: machinery error.
 
+mod c01;
 mod c02;
+mod c03;
+mod c04;
+mod c05;
+mod c06;
+mod c07;
+mod c08;
+mod c09;
+mod c10;
+mod c11;
+mod c12;
+mod c13;
+mod c14;
+mod c15;
+mod c16;
+mod c17;
+mod c18;
+mod c19;
 mod common;
 mod refwire;
 mod refzone;
@@ -20,13 +39,40 @@ fn main() {
         eprintln!("usage: vcheck <ID> [--tier quick|thorough] [--replay <file>]");
         std::process::exit(2);
     }
+    if args[1] == "worker" {
+        if args.len() < 3 {
+            std::process::exit(2);
+        }
+        let code = match args[2].to_uppercase().as_str() {
+            "C01" => c01::worker(&args[3..]),
+            "C02" => c02::worker(&args[3..]),
+            "C03" => c03::worker(&args[3..]),
+            "C04" => c04::worker(&args[3..]),
+            "C05" => c05::worker(&args[3..]),
+            "C06" => c06::worker(&args[3..]),
+            "C07" => c07::worker(&args[3..]),
+            "C08" => c08::worker(&args[3..]),
+            "C09" => c09::worker(&args[3..]),
+            "C10" => c10::worker(&args[3..]),
+            "C11" => c11::worker(&args[3..]),
+            "C12" => c12::worker(&args[3..]),
+            "C13" => c13::worker(&args[3..]),
+            "C14" => c14::worker(&args[3..]),
+            "C15" => c15::worker(&args[3..]),
+            "C16" => c16::worker(&args[3..]),
+            "C17" => c17::worker(&args[3..]),
+            "C18" => c18::worker(&args[3..]),
+            "C19" => c19::worker(&args[3..]),
+            _ => 2,
+        };
+        std::process::exit(code);
+    }
     let id_arg = args[1].to_uppercase();
     let mut tier = match std::env::var("VERIF_TIER").ok().as_deref() {
         Some("thorough") => Tier::Thorough,
         _ => Tier::Quick,
     };
     let mut replay: Option<PathBuf> = None;
-    let mut rest: Vec<String> = Vec::new();
     let mut i = 2;
     while i < args.len() {
         match args[i].as_str() {
@@ -45,7 +91,10 @@ fn main() {
                 i += 1;
                 replay = args.get(i).map(PathBuf::from);
             }
-            other => rest.push(other.to_string()),
+            other => {
+                eprintln!("unknown argument {other}");
+                std::process::exit(2);
+            }
         }
         i += 1;
     }
@@ -65,7 +114,25 @@ fn main() {
         });
 
     let id: &'static str = match id_arg.as_str() {
+        "C01" => "C01",
         "C02" => "C02",
+        "C03" => "C03",
+        "C04" => "C04",
+        "C05" => "C05",
+        "C06" => "C06",
+        "C07" => "C07",
+        "C08" => "C08",
+        "C09" => "C09",
+        "C10" => "C10",
+        "C11" => "C11",
+        "C12" => "C12",
+        "C13" => "C13",
+        "C14" => "C14",
+        "C15" => "C15",
+        "C16" => "C16",
+        "C17" => "C17",
+        "C18" => "C18",
+        "C19" => "C19",
         other => {
             eprintln!("unknown check {other}");
             std::process::exit(2);
@@ -78,17 +145,52 @@ fn main() {
         start: Instant::now(),
         threads,
     };
-    let _ = rest;
 
     let code = if let Some(path) = replay {
         let v = common::read_replay(&path);
         match id {
+            "C01" => c01::replay(&ctx, &v),
             "C02" => c02::replay(&ctx, &v),
+            "C03" => c03::replay(&ctx, &v),
+            "C04" => c04::replay(&ctx, &v),
+            "C05" => c05::replay(&ctx, &v),
+            "C06" => c06::replay(&ctx, &v),
+            "C07" => c07::replay(&ctx, &v),
+            "C08" => c08::replay(&ctx, &v),
+            "C09" => c09::replay(&ctx, &v),
+            "C10" => c10::replay(&ctx, &v),
+            "C11" => c11::replay(&ctx, &v),
+            "C12" => c12::replay(&ctx, &v),
+            "C13" => c13::replay(&ctx, &v),
+            "C14" => c14::replay(&ctx, &v),
+            "C15" => c15::replay(&ctx, &v),
+            "C16" => c16::replay(&ctx, &v),
+            "C17" => c17::replay(&ctx, &v),
+            "C18" => c18::replay(&ctx, &v),
+            "C19" => c19::replay(&ctx, &v),
             _ => 2,
         }
     } else {
         match id {
+            "C01" => c01::run(&ctx),
             "C02" => c02::run(&ctx),
+            "C03" => c03::run(&ctx),
+            "C04" => c04::run(&ctx),
+            "C05" => c05::run(&ctx),
+            "C06" => c06::run(&ctx),
+            "C07" => c07::run(&ctx),
+            "C08" => c08::run(&ctx),
+            "C09" => c09::run(&ctx),
+            "C10" => c10::run(&ctx),
+            "C11" => c11::run(&ctx),
+            "C12" => c12::run(&ctx),
+            "C13" => c13::run(&ctx),
+            "C14" => c14::run(&ctx),
+            "C15" => c15::run(&ctx),
+            "C16" => c16::run(&ctx),
+            "C17" => c17::run(&ctx),
+            "C18" => c18::run(&ctx),
+            "C19" => c19::run(&ctx),
             _ => 2,
         }
     };
